@@ -78,6 +78,18 @@ func standardPhases(mons []string, suffix int, thorough bool) []Phase {
 		add("S2 static3, windows at seed positions 12,17,22, all sequences of length 2 over 12 actions", s2Items(w3, []int{12, 17, 22}, 2, n3, mons, suffix))
 		add("S2 join3to4, windows inside the activation window (positions 24,40), length 2 over 22 actions", s2Items(wj, []int{24, 40}, 2, n4, mons, suffix))
 	}
+	if mons[len(mons)-1] == "C04" {
+		// the application applies its k-th block but the reply is lost (babble sees a failed commit call): whatever
+		// babble does about it, no event may be committed a second time. Only the C04 monitor applies under this
+		// fault (the stored block legitimately lacks the state hash babble never received).
+		var cf []sched.Item
+		for node := 0; node < 3; node++ {
+			for k := 1; k <= 8; k++ {
+				cf = append(cf, sched.Item{Scenario: fmt.Sprintf("commitfault:3:45:%d:%d", node, k), Mode: "s3", Mons: []string{"C04"}, Suffix: suffix})
+			}
+		}
+		add("commit call k=1..8 of node 0/1/2 applied by the application, reply lost (static3 seed)", cf)
+	}
 	if mons[len(mons)-1] == "C02" {
 		// "starting where it began (0, or the block after a fast-sync anchor)": a validator that replays its
 		// database and then runs the fast-forward every fast-sync node runs after Init
